@@ -132,9 +132,10 @@ func RunRegistry(behs [][]Step, tr *Trace, env Env, sum *Summary) {
 				for _, l := range s.hold {
 					l.Close()
 				}
-				for n := range s.ports { // stop HTTP servers that are still up
-					p, _ := guarded(func() { w.TS.ListenerRemove(n) }, 8*time.Second)
-					_ = p
+				for _, l := range w.TS.Listeners { // close HTTP servers that are still up (Stop() would wait 5 s each)
+					if h, ok := l.Config.(*handlers.HTTP); ok && h.Server != nil {
+						h.Server.Close()
+					}
 				}
 			}()
 			tr.Emit(map[string]any{"ev": "Reset"})
@@ -221,13 +222,26 @@ func RunRegistry(behs [][]Step, tr *Trace, env Env, sum *Summary) {
 							}
 						}
 					}
-					call(func() { w.TS.ListenerEdit(handlers.LISTENER_HTTP, handlers.HTTPConfig{Name: a, UserAgent: uaOf(1 - cur)}) })
+					// version 1 restricts path and headers as well; going back to version 0 clears both lists again
+					next := handlers.HTTPConfig{Name: a, UserAgent: uaOf(1 - cur)}
+					if 1-cur == 1 {
+						next.Uris = []string{"/only"}
+						next.Headers = []string{"X-Ver: 1"}
+					}
+					call(func() { w.TS.ListenerEdit(handlers.LISTENER_HTTP, next) })
 				case "Serve":
 					s.seq++
 					id := uint32(0x100000 + s.seq + bi*1000)
 					body := refdemon.Register(id, world.KeysFor(env.Seed, s.seq, false), refdemon.DefaultMeta("h"))
-					req, _ := http.NewRequest("POST", "http://127.0.0.1:"+s.ports[a]+"/", bytes.NewReader(body))
+					path := "/"
+					if st.Int("b") == 1 {
+						path = "/only"
+					}
+					req, _ := http.NewRequest("POST", "http://127.0.0.1:"+s.ports[a]+path, bytes.NewReader(body))
 					req.Header.Set("User-Agent", uaOf(st.Int("b")))
+					if st.Int("b") == 1 {
+						req.Header.Set("X-Ver", "1")
+					}
 					resp, err := (&http.Client{Timeout: 5 * time.Second}).Do(req)
 					if err != nil {
 						ok = false
